@@ -69,7 +69,10 @@ StateViol(st, s) ==
 SearchViol(r, s, small) ==
   LET res == r.res   n == Len(res)
       ok(i) == res[i][1] \in DOMAIN s
-  IN IF "err" \in DOMAIN r THEN {<<l, "SearchErr">>} ELSE
+  IN IF "err" \in DOMAIN r
+     THEN {<<l, "SearchErr">>}    \* within the small-collection premise a failed search is not the exact answer either (C07)
+          \cup (IF small /\ DOMAIN s # {} /\ Cardinality(DOMAIN s) <= Max(cfg.ef, r.k) THEN {<<l, "SmallExact">>} ELSE {})
+     ELSE
      (IF \A i \in 1..n : ok(i) THEN {} ELSE {<<l, "SearchLive">>})
      \cup (IF \A i \in 1..n : ok(i) => res[i][2] = Rank(r.q, s[res[i][1]].pt) THEN {} ELSE {<<l, "SearchScore">>})
      \cup (IF \A i \in 1..n : ok(i) => res[i][3] = s[res[i][1]].meta THEN {} ELSE {<<l, "SearchMeta">>})
